@@ -133,24 +133,15 @@ theorem sync_stop_quiet (br : BR) (wl : Option Workload)
           · split at hstop
             · split at hstop <;> cases hstop
             · split at hstop
-              · -- pod template changed while progressing: the status changes
+              · -- pod template changed while progressing: the executor stops on every round (class `superseded`)
                 rename_i hptc
-                exfalso
-                have hph : br.status.phase ≠ .empty := by rw [hptc.2]; simp
-                have hini := initialized_of_phase _ hph
-                simp only [hini] at *
-                obtain ⟨w, hw, hne⟩ := syncInfo_ptc br br.status wl hptc.1
-                unfold syncStatus syncDecide at hsame
-                simp only [*, if_true, and_self] at hsame
-                have := congrArg Status.updateRevision hsame
-                simp [refreshStatus] at this
-                exact hne this
+                rw [if_pos hptc]; rfl
               · split at hstop
-                · rename_i hsr
-                  rw [if_pos hsr]; rfl
+                · rename_i hnptc hsr
+                  rw [if_neg hnptc, if_pos hsr]; rfl
                 · split at hstop
-                  · rename_i hnsr hrb
-                    rw [if_neg hnsr, if_pos hrb]; rfl
+                  · rename_i hnptc hnsr hrb
+                    rw [if_neg hnptc, if_neg hnsr, if_pos hrb]; rfl
                   · cases hstop
 
 
